@@ -73,6 +73,9 @@ func listener(c *lib.Ctx, r *lib.Rand) {
 	cookieF := ntsx.RawField(0x204, e.ck)
 	phF := ntsx.RawField(0x304, make([]byte, len(e.ck)))
 	send := func(b []byte, what string) {
+		if len(b) <= 48 {
+			return // not an NTS datagram: answered (or not) as plain NTP, outside this model
+		}
 		op := fmt.Sprintf("lsn.send %s keys=[1:%s] cur=1:%s", lib.Hex(b), lib.Hex(zero), lib.Hex(zero))
 		ans := ntsx.Do(c, op)
 		c.Count("listener:" + strings.Fields(ans)[0])
